@@ -558,6 +558,15 @@ def run(prog, tier, extra=None):
                         for d in b9.defs(y[1]):
                             work9.append(ch9.rvalue(d[3], 0) if d[0] == "stmt" else ch9.call(d[2], d[1], 0) if d[0] == "call" else ("unknown",))
             if bad9 is not None:
+                # `2 * genesis_period - 1` written out is the ring size minus one: the same slot
+                from ..linear import Linearizer as _Lz9
+                try:
+                    v9 = _Lz9(b9, ch9, prog).lin(bad9)
+                except Exception:
+                    v9 = None
+                if v9 is not None and len(v9.t) == 1 and list(v9.t.values())[0] == 2 and "genesis_period" in str(list(v9.t.keys())[0]) and v9.c == -1:
+                    bad9 = None
+            if bad9 is not None:
                 res.add(Finding(R9, "C03.ring-positions|%s" % p9.replace("::{closure#0}", ""), "%s indexes the ring with a position computed from genesis_period (`%s`), but the ring has "
                                 "2 * genesis_period slots: the slot before slot 0 is ring size - 1" % (p9.replace(CORE, ""), _sh9(bad9)[:60]), b9.loc(bb)))
     res.explanation = (
